@@ -481,6 +481,23 @@ class Scn:
             return
         found, comps = judge(ex.obs, tuple(d["prog"]))
         p.count("attempt_comparisons_in_schedules", comps)
+        # isolation under concurrency: what a workflow draws (random / uuid: functions of the workflow and the
+        # position only) must not depend on how the other workflow's execution is interleaved with it; reference =
+        # the same two workflows (same ids: the id source is a counter) under the default schedule, where the
+        # workers never preempt each other inside an operation
+        if ex.deviations > 0:
+            ref = self._reference()
+            for r in ex.obs["log"]:
+                want = ref.get(r["inv"])
+                if want is None:
+                    continue
+                p.count("cross_schedule_comparisons")
+                for pos, (kind, val) in enumerate(r["values"]):
+                    if kind in ("random", "uuid") and pos < len(want) and want[pos] != (kind, val):
+                        found.append(("value-depends-on-concurrent-workflow", kind,
+                                      {"workflow": r["inv"], "attempt": r["attempt"], "position": pos, "alone": want[pos][1],
+                                       "interleaved": val}))
+                        break
         # Exploration only (p is the explorer's accumulator, which has already counted this schedule; minimisation
         # and replay pass an empty Partial and get everything): a (clause, op) that the default schedule of this
         # scenario shows as well, or that this process has already reported for a preempting schedule, would get the
@@ -499,6 +516,17 @@ class Scn:
                         dict(detail, program=d["prog"],
                              executions=[(r["inv"][-4:], r["attempt"], r["thread"], r["values"]) for r in ex.obs["log"]][:8]), {})
 
+    def _reference(self) -> dict:
+        key = canon(self.desc)
+        got = _REFERENCE.get(key)
+        if got is None:
+            ex0 = self.execute([], None)
+            got = {}
+            for r in ex0.obs["log"]:
+                got.setdefault(r["inv"], [(k, v) for k, v in r["values"]])
+            _REFERENCE[key] = got
+        return got
+
     def _default_shows(self, key: str) -> set:
         got = _DEFAULT_SHOWS.get(key)
         if got is None:
@@ -508,6 +536,7 @@ class Scn:
 
 
 _DEFAULT_SHOWS: dict[str, set] = {}
+_REFERENCE: dict[str, dict] = {}
 _SEEN_PREEMPTED: dict[str, set] = {}
 
 
